@@ -1222,3 +1222,55 @@ def case_count_nested(ctx, s: Subject):
         {k: v for k, v in real["ok"]["counts"].items() if any(v)} == {k: v for k, v in exp.items() if any(v)}
     ctx.case("count_nested.by", {**s.desc(), "labels": labels, "by": byf, "join": join}, real, None, {"ok": exp}, hyp=s.hyp,
              features=s.features + ("by",), spec_ok=ok, nontrivial=s.nontrivial())
+
+
+def case_reduce_after_inplace_field(ctx, s: Subject):
+    """a field added IN PLACE to the live array of a frame's nested column (after the frame's dtypes and column
+    listing were looked at) is a column reduce recognises: the function gets each row's own list of it"""
+    from .ops_meta import npval
+    rng = ctx.rng
+    if s.hyp.get("hidden"):
+        return
+    nf, labels, _ = mk_nf(ctx, s, with_other=False, history=False)
+    rows = s.content["rows"]
+    lens = [0 if r is None else (len(r[0][1]) if r else 0) for r in rows]
+    total = sum(lens)
+    _ = nf.dtypes, nf.nested_columns, nf.all_columns, repr(nf)      # what a user does before
+    vals = [1000 + k for k in range(total)]
+    how = rng.choice(["flat", "list"])
+    log = []
+
+    def fun(*a):
+        log.append([npval(x) if isinstance(x, np.ndarray) else repr_scalar(x) for x in a])
+        return len(log)
+
+    def run():
+        arr = nf["nest"].array
+        if how == "flat":
+            arr.set_flat_field("zz_new", np.array(vals, dtype=np.int64))
+        else:
+            ls, k = [], 0
+            for ln in lens:
+                ls.append(vals[k:k + ln])
+                k += ln
+            arr.set_list_field("zz_new", pa.array(ls, type=pa.list_(pa.int64())))
+        args = rng.choice([("id", "nest.zz_new"), ("nest.zz_new",), ("nest.zz_new", "x")])
+        nf.reduce(fun, *args)
+        return {"args": list(args), "lists": [[e for e in call if isinstance(e, dict) or isinstance(e, list)] for call in log],
+                "nargs": sorted({len(call) for call in log})}
+    real = call_real(run)
+    exp_lists, k = [], 0
+    for ln in lens:
+        exp_lists.append(vals[k:k + ln])
+        k += ln
+    ok = False
+    if "ok" in real:
+        r = real["ok"]
+        got = []
+        for call in log:
+            j = r["args"].index("nest.zz_new")
+            got.append(cells_of_npval(call[j], "int64") if j < len(call) and isinstance(call[j], dict) else "not-a-list")
+        ok = (r["nargs"] in ([len(r["args"])], []) and len(log) == len(rows)
+              and all(rows[i] is None or got[i] == exp_lists[i] for i in range(len(rows))))
+    ctx.case("reduce.after_inplace_field", {**s.desc(), "how": how, "vals": vals}, real, None, None, hyp=s.hyp,
+             features=s.features + ("inplace_field", how), spec_ok=ok, nontrivial=total > 0)
